@@ -184,6 +184,11 @@ func (t *tr) pcs(e ast.Expr, cond bool, hoist *[]*ast.CallExpr) []string {
 	if tv, ok := t.p.info.Types[e]; ok && tv.Value != nil {
 		return nil
 	}
+	if t.spec.round6 {
+		if c, ok := t.pcs6(e, cond, hoist); ok {
+			return c
+		}
+	}
 	if t.spec.round5 {
 		if c, ok := t.pcs5(e, cond, hoist); ok {
 			return c
@@ -256,6 +261,11 @@ func (t *tr) pcs(e ast.Expr, cond bool, hoist *[]*ast.CallExpr) []string {
 		if sel, ok := e.Fun.(*ast.SelectorExpr); ok {
 			if root, _ := selPath(sel.X); root == nil || t.absOf(root) == nil {
 				out = append(out, t.pcs(sel.X, cond, hoist)...)
+			} else if t.spec.round6 {
+				// the receiver is read through a pointer field that may be nil (iter.go)
+				if c, ok := t.pcs6(sel.X, cond, hoist); ok {
+					out = append(out, c...)
+				}
 			}
 		}
 		if t.isOptCall(e) {
@@ -604,6 +614,7 @@ func (t *tr) loopState(from, to token.Pos, nodes ...ast.Node) []stateVar {
 		case *ast.IncDecStmt:
 			targets = []ast.Expr{n.X}
 		}
+		t.oracleWrites(n, found, poss)
 		if es, isES := n.(*ast.ExprStmt); isES {
 			// a call that assigns the elements of a slice argument (eval.go)
 			if _, v, ok := t.outCallTarget(es); ok {
@@ -624,6 +635,9 @@ func (t *tr) loopState(from, to token.Pos, nodes ...ast.Node) []stateVar {
 			}
 		}
 		for _, l := range targets {
+			if t.spec.round6 && (t.storagePath(l) || t.isStorLocal(l)) {
+				continue // a buffer is moved (iter.go): not a value
+			}
 			if tgt, ok := t.derefTarget(l); ok {
 				// `*q = ..` through a pointer whose target is known on this path (mut.go)
 				if tgt != nil {
@@ -793,7 +807,7 @@ func (t *tr) shapeOf(s ast.Stmt) (sh loopShape, ok bool) {
 				}
 			}
 		}
-		if s.Cond == nil && !(s.Init == nil && s.Post == nil && ownBreak(s.Body)) {
+		if s.Cond == nil && !(s.Init == nil && s.Post == nil && (ownBreak(s.Body) || (t.spec.round6 && containsReturn(s.Body)))) {
 			t.fail(s, "loop without condition in this form")
 			return sh, false
 		}
@@ -877,6 +891,10 @@ func (t *tr) newLoop(s ast.Stmt, cont func() string) string {
 		return "?"
 	}
 	hasRet := containsReturn(sh.body)
+	if fs, isFor := s.(*ast.ForStmt); isFor && t.spec.round6 && sh.kind == "while" && sh.cond == nil && !ownBreak(fs.Body) {
+		// `for { .. return .. }` without a break of its own (iter.go): what follows the loop is unreachable
+		cont = func() string { return "none" }
+	}
 	opt := t.opt
 	if sh.kind == "while" && !t.wantOpt(s) {
 		return "?"
@@ -1235,6 +1253,9 @@ func (t *tr) branch(s *ast.BranchStmt) string {
 		switch s.Tok {
 		case token.BREAK:
 			if l.isSwitch {
+				if l.brk != nil {
+					return l.brk() // leaves the switch: its continuation (iter.go)
+				}
 				t.fail(s, "break inside a switch")
 				return "?"
 			}
